@@ -10,10 +10,12 @@ NAME = 'OBJM'
 SRC = '/repo/src/bloch/runtime/runtime_evaluator.cpp'
 NAMESPACE = 'bloch::runtime'
 FUNCS = []
-AST_FILTER = ['RuntimeEvaluator::destroyObject', 'RuntimeEvaluator::beginScope', 'bloch::runtime::Value']
+AST_FILTER = ['RuntimeEvaluator::destroyObject', 'RuntimeEvaluator::beginScope', 'bloch::runtime::Value', 'RuntimeEvaluator::exec', 'RuntimeEvaluator::eval']
 SHIM = 'objm.h'
 THROWING = set()
-DROPS = ['region dtor_walk: the for statement over the class chain inside `if (runUserDestructor && obj->cls)` of destroyObject; `obj`, `runUserDestructor` and the evaluator state become parameters / file-level variables',
+DROPS = ['region member_dispatch: in the member-call branch of RuntimeEvaluator::eval, the then-branch of `if (target.type == Value::Type::Object && target.objectValue)` (which method runs for obj.m(...) / super.m(...)); findClass / findMethod / the vtable lookup are uninterpreted functions, methods are rows of a method table',
+         'region exec_block: the BlockStatement branch of RuntimeEvaluator::exec (`block` becomes an opaque body identity; exec of the nested statements is the ghost-recording model)',
+         'region dtor_walk: the for statement over the class chain inside `if (runUserDestructor && obj->cls)` of destroyObject; `obj`, `runUserDestructor` and the evaluator state become parameters / file-level variables',
          'classes are indices into a class table {base, destructorDecl, name} (0 = null); a declaration and its body are opaque identities; the statements of a body are (body, index) pairs',
          'exec(stmt) is a model with a body: it advances a ghost clock, records per class the time of the first statement executed in destructor context and the `this` binding seen, and may set m_hasReturn',
          'the scope stack: beginScope / endScope move a ghost depth counter; m_env.back()["this"] = ... records the binding (ghost)',
@@ -34,6 +36,7 @@ class Profile(Lower):
         (r'^(std::)?shared_ptr<(bloch::runtime::)?Object>$', 'bl_objid'),
         (r'^std::__shared_ptr<(bloch::runtime::)?Object, __gnu_cxx::_S_atomic>$', 'bl_objid'),
         (r'^(bloch::runtime::)?Object \*$', 'bl_objid'),
+        (r'^std::__shared_ptr_access<(bloch::runtime::)?Object, __gnu_cxx::_S_atomic, false, false>(::element_type \*)?$', 'bl_objid'),
         (r'^(bloch::runtime::)?RuntimeClass \*$', 'bl_clsid'),
         (r'^(bloch::compiler::)?DestructorDeclaration \*$', 'bl_decl'),
         (r'^std::unique_ptr<(bloch::compiler::)?BlockStatement(, std::default_delete<.*>)?>$', 'bl_body'),
@@ -41,6 +44,10 @@ class Profile(Lower):
         (r'^std::unique_ptr<(bloch::compiler::)?Statement(, std::default_delete<.*>)?>$', 'bl_stmt'),
         (r'^(bloch::compiler::)?Statement \*$', 'bl_stmt'),
         (r'^(bloch::runtime::)?(RuntimeEvaluator::)?VarEntry$', 'VarEntry'),
+        (r'^(bloch::runtime::)?RuntimeMethod \*$', 'bl_mth'),
+        (r'^std::unordered_map<std::(basic_string<char.*>|string), (bloch::runtime::)?RuntimeMethod \*.*>::iterator$', 'bl_mth'),
+        (r'^std::__detail::_Node_iterator<std::pair<const std::(basic_string<char.*>|string), (bloch::runtime::)?RuntimeMethod \*>.*$', 'bl_mth'),
+        (r'^std::vector<(bloch::runtime::)?Value(, .*)?>( \*)?$', 'bl_argsref'),
     ]
 
     def prepare(self, docs, workdir):
@@ -71,9 +78,17 @@ class Profile(Lower):
         raise Unsupported('string literal ' + n.get('value', ''))
 
     def cast_other(self, n, ck, inner):
-        if ck == 'PointerToBoolean' and self.ct(inner) in ('bl_clsid', 'bl_decl', 'bl_objid'):
+        if ck == 'UserDefinedConversion':
+            return self.expr(inner)
+        if ck == 'PointerToBoolean' and self.ct(inner) in ('bl_clsid', 'bl_decl', 'bl_objid', 'bl_mth'):
             return '(%s != 0)' % self.expr(inner)
         return super().cast_other(n, ck, inner)
+
+    def ctype(self, t):
+        t0 = norm_type(t)
+        if 'RuntimeMethod *' in t0 and ('_Node_iterator' in t0 or '::iterator' in t0):
+            return 'bl_mth'
+        return super().ctype(t)
 
     def member(self, n):
         base = kids(n)[0]
@@ -82,6 +97,16 @@ class Profile(Lower):
         if sb.get('kind') == 'CXXThisExpr':
             return 'ev_' + nm                      # evaluator state: file-level variables
         bt = self.ct(sb)
+        if nm == 'second' and sb.get('kind') == 'CXXOperatorCallExpr' and callee_name(kids(sb)[0]) == 'operator->' and self.ct(kids(sb)[1]) == 'bl_mth':
+            return self.expr(kids(sb)[1])
+        if bt == 'bl_mth' and nm in ('isVirtual', 'signature'):
+            return 'g_mth[BL_IDX(%s, MMAX)].%s' % (self.expr(sb), nm)
+        if bt == 'bl_mth' and nm == 'second':
+            return self.expr(sb)
+        if nm == 'vtable' and bt == 'bl_clsid':
+            return 'BL_VTABLE(%s)' % self.expr(sb)
+        if sb.get('kind') == 'DeclRefExpr' and sb['referencedDecl']['name'] == getattr(self, 'ctx', None) and nm in ('member', 'line', 'column'):
+            return '%s_%s' % (self.ctx, nm)
         if bt == 'bl_clsid' and nm in ('base', 'destructorDecl', 'name'):
             return 'g_cls[BL_IDX(%s, CMAX)].%s' % (self.expr(sb), nm)
         if bt == 'bl_objid' and nm == 'cls':
@@ -89,6 +114,8 @@ class Profile(Lower):
         if bt == 'bl_decl' and nm == 'body':
             return 'DECL_BODY(%s)' % self.expr(sb)
         if nm == 'statements' and self.ctype_safe(qt(n)) == 'bl_stmts':
+            if sb.get('kind') == 'DeclRefExpr' and sb['referencedDecl']['name'] == getattr(self, 'ctx', None):
+                return 'BODY_STMTS(%s)' % self.ctx
             return 'BODY_STMTS(%s)' % self.expr(sb)
         if bt == 'Value' and nm in ('type', 'className', 'objectValue'):
             return '(%s).%s' % (self.expr(sb), nm)
@@ -99,8 +126,12 @@ class Profile(Lower):
         op = callee_name(ks[0])
         args = ks[1:]
         t0 = self.ct(args[0])
-        if op == 'operator->' and t0 in ('bl_body', 'bl_objid'):
+        if op == 'operator->' and t0 in ('bl_body', 'bl_objid', 'bl_mth'):
             return self.expr(args[0])
+        if op in ('operator==', 'operator!=') and t0 == 'bl_mth':
+            return '(%s %s %s)' % (self.expr(args[0]), op[len('operator'):], self.expr(args[1]))
+        if op == 'operator=' and t0 == 'bl_mth':
+            return '(%s = %s)' % (self.expr(args[0]), self.expr(args[1]))
         if op == 'operator=' and t0 in ('bl_cname', 'bl_objid'):
             return '(%s = %s)' % (self.expr(args[0]), self.expr(args[1]))
         if op == 'operator=' and 'VarEntry' in norm_type(qt(args[0])):
@@ -120,7 +151,19 @@ class Profile(Lower):
             return 'objm_exec(%s)' % self.expr(args[0])
         if name == 'back' and so.get('kind') == 'MemberExpr' and so.get('name') == 'm_env':
             return 'BL_TOP_SCOPE'
+        if so.get('kind') == 'CXXThisExpr' and name == 'findClass' and len(args) == 1:
+            return 'objm_findClass(%s)' % self.expr(args[0])
+        if so.get('kind') == 'CXXThisExpr' and name == 'findMethod' and len(args) == 3:
+            return 'objm_findMethod(%s, %s)' % (self.expr(args[0]), self.expr(args[1]))      # the argument list is fixed for the call: dropped
+        if name in ('find', 'end'):
+            vt = self.expr(obj)
+            if vt.startswith('BL_VTABLE('):
+                return 'objm_vtable_find(%s, %s)' % (vt[len('BL_VTABLE('):-1], self.expr(args[0])) if name == 'find' else '((bl_mth)0)'
         t = self.ct(obj)
+        if t == 'bl_cname' and name == 'empty':
+            return '(%s == 0)' % self.expr(obj)
+        if t == 'bl_objid' and name == 'operator bool':
+            return '(%s != 0)' % self.expr(obj)
         if t == 'bl_body' and name == 'operator bool':
             return '(%s != 0)' % self.expr(obj)
         if t == 'bl_stmt' and name == 'get':
@@ -142,7 +185,7 @@ class Profile(Lower):
         args = [a for a in kids(n) if a.get('kind') != 'CXXDefaultArgExpr']
         if ct == 'Value' and len(args) == 0:
             return '(Value){0}'
-        if ct in ('VarEntry', 'Value', 'bl_cname') and len(args) == 1:
+        if ct in ('VarEntry', 'Value', 'bl_cname', 'bl_mth') and len(args) == 1:
             return self.expr(args[0])
         if ct == 'bl_objid' and len(args) == 2 and self.ct(args[0]) == 'bl_objid':
             lam = []
@@ -213,7 +256,56 @@ def lower_regions(docs, prof):
     d = dict(kind='FunctionDecl', name='dtor_walk', type=dict(qualType='void ()'), inner=[body2])
     prof.locals.add('obj')
     head, lines = prof.func(d, cname='dtor_walk', is_method=False)
-    return [('void objm_dtor_walk(bl_objid obj)', lines)]
+    out = [('void objm_dtor_walk(bl_objid obj)', lines)]
+    # the BlockStatement branch of exec
+    try:
+        from units.arith import find_region
+        ex = cxx2c.find_functions(docs, 'exec')
+        if len(ex) != 1:
+            raise Unsupported('RuntimeEvaluator::exec: %d definitions' % len(ex))
+        body = [k for k in kids(ex[0]) if k.get('kind') == 'CompoundStmt'][0]
+        n, cast = find_region(body, 'block')
+        if not any('BlockStatement' in c for c in cast):
+            raise Unsupported('region `block` is no longer the dynamic_cast<BlockStatement*> branch')
+        prof.ctx = 'block'
+        prof.locals.add('block')
+        d2 = dict(kind='FunctionDecl', name='exec_block', type=dict(qualType='void ()'), inner=[kids(n)[2]])
+        h2, l2 = prof.func(d2, cname='exec_block', is_method=False)
+        prof.ctx = None
+        out.append(('void objm_exec_block(bl_body block)', l2))
+    except Unsupported as e:
+        prof.region_unlowered = {'exec_block': str(e)}
+        out.append(('void objm_exec_block(bl_body block)', None))
+    # which method runs for obj.m(...): the object branch of the member-call dispatch in eval
+    hd = 'void objm_member_dispatch(Value target, _Bool viaSuper, bl_cname member_member)'
+    try:
+        ev = cxx2c.find_functions(docs, 'eval')
+        if len(ev) != 1:
+            raise Unsupported('RuntimeEvaluator::eval: %d definitions' % len(ev))
+        ifs = []
+        walk(ev[0], lambda z: ifs.append(z) if z.get('kind') == 'IfStmt' else None)
+        tgt = None
+        for st in ifs:
+            cr, br = [], []
+            walk(kids(st)[0], lambda z: cr.append(z.get('name')) if z.get('kind') == 'MemberExpr' else None)
+            walk(kids(st)[1], lambda z: br.append(z['referencedDecl'].get('name')) if z.get('kind') == 'DeclRefExpr' else None)
+            if 'objectValue' in cr and 'viaSuper' in br and 'receiver' in br:
+                tgt = st
+                break
+        if tgt is None:
+            raise Unsupported('member_dispatch: object branch of the member-call dispatch not found in eval')
+        prof.ctx = 'member'
+        prof.locals |= {'target', 'viaSuper', 'member', 'args', 'method', 'staticCls', 'receiver'}
+        d3 = dict(kind='FunctionDecl', name='member_dispatch', type=dict(qualType='void ()'), inner=[kids(tgt)[1]])
+        h3, l3 = prof.func(d3, cname='member_dispatch', is_method=False)
+        prof.ctx = None
+        out.append((hd, l3))
+    except Unsupported as e:
+        if not hasattr(prof, 'region_unlowered'):
+            prof.region_unlowered = {}
+        prof.region_unlowered['member_dispatch'] = str(e)
+        out.append((hd, None))
+    return out
 
 
 
@@ -231,7 +323,7 @@ size_t k1, k2; bl_clsid ca, cb;              /* ghost: two positions k1 < k2 on 
 _Bool g_hasA, g_hasB; size_t g_nsA, g_nsB, g_ns;     /* ghost: precomputed facts (no calls in invariants) */
 int g_a_entered, g_b_entered; _Bool g_a_started, g_b_started, g_b_started_when_a, g_a_this_ok, g_b_this_ok;
 size_t g_depth, g_depth0, g_a_depth, g_b_depth; Value g_this; _Bool g_this_valid; bl_objid g_obj;
-bl_clsid g_ctx0; _Bool g_st0, g_ct0, g_dt0;
+bl_clsid g_ctx0; _Bool g_st0, g_ct0, g_dt0; int g_begins, g_ends; size_t g_blk_n;
 #ifndef NATIVE
 bl_clsid __CPROVER_uninterpreted_obj_cls(bl_objid); bl_body __CPROVER_uninterpreted_decl_body(bl_decl); size_t __CPROVER_uninterpreted_body_nstmts(bl_body); bl_stmt __CPROVER_uninterpreted_body_stmt(bl_body, size_t);
 #define OBJ_CLS(o) __CPROVER_uninterpreted_obj_cls(o)
@@ -247,11 +339,11 @@ bl_clsid __CPROVER_uninterpreted_obj_cls(bl_objid); bl_body __CPROVER_uninterpre
 #define BODY_STMTS(b) (b)
 /* models with bodies (ghost instrumentation of the scope stack and of statement execution) */
 static inline void objm_beginScope(void) {
-  g_depth = g_depth + 1; g_this_valid = 0;
+  g_depth = g_depth + 1; g_this_valid = 0; if (g_begins < 1000) g_begins = g_begins + 1;
   if (ev_m_inDestructor && ev_m_currentClassCtx == ca && g_a_entered < 1000) g_a_entered = g_a_entered + 1;
   if (ev_m_inDestructor && ev_m_currentClassCtx == cb && g_b_entered < 1000) g_b_entered = g_b_entered + 1;
 }
-static inline void objm_endScope(void) { if (g_depth > 0) g_depth = g_depth - 1; g_this_valid = 0; }
+static inline void objm_endScope(void) { if (g_depth > 0) g_depth = g_depth - 1; g_this_valid = 0; if (g_ends < 1000) g_ends = g_ends + 1; }
 static inline void objm_put_top(bl_cname name, VarEntry e) { if (name == BL_NAME_THIS) { g_this = e.value; g_this_valid = 1; } }
 static inline void objm_exec(bl_stmt s) {
   _Bool ok = g_this_valid && g_this.type == BL_Object && g_this.objectValue == g_obj && ev_m_currentClassCtx > 0 && ev_m_currentClassCtx < CMAX && g_this.className == g_cls[ev_m_currentClassCtx].name;
@@ -260,6 +352,24 @@ static inline void objm_exec(bl_stmt s) {
   ev_m_hasReturn = nondet_bool();
 }
 #endif
+/* ---- region member_dispatch: method table, uninterpreted class / method / vtable lookups, and the locals of eval the region updates */
+#ifndef MMAX
+#define MMAX 8
+#endif
+typedef struct { _Bool isVirtual; bl_cname signature; } MthRow; MthRow g_mth[MMAX];
+bl_mth method; bl_clsid staticCls; bl_objid receiver;
+#ifndef NATIVE
+unsigned __CPROVER_uninterpreted_cls_of_name(bl_cname); unsigned __CPROVER_uninterpreted_method_of(bl_clsid, bl_cname); unsigned __CPROVER_uninterpreted_vtable(bl_clsid, bl_cname);
+#define CLS_OF_NAME(n) ((bl_clsid)(__CPROVER_uninterpreted_cls_of_name(n) % CMAX))
+#define METHOD_OF(c, n) ((bl_mth)(__CPROVER_uninterpreted_method_of(c, n) % MMAX))
+#define VT(c, s) ((bl_mth)(__CPROVER_uninterpreted_vtable(c, s) % MMAX))
+static inline bl_clsid objm_findClass(bl_cname n) { return CLS_OF_NAME(n); }
+static inline bl_mth objm_findMethod(bl_clsid c, bl_cname n) { return METHOD_OF(c, n); }
+static inline bl_mth objm_vtable_find(bl_clsid c, bl_cname sig) { return VT(c, sig); }
+#endif
+#define DYN_CLS OBJ_CLS(target.objectValue)
+#define STATIC_CLS ((target.className != 0 && CLS_OF_NAME(target.className) != 0) ? CLS_OF_NAME(target.className) : DYN_CLS)
+#define FOUND METHOD_OF(STATIC_CLS, member_member)
 #define HASDTOR(c) (g_cls[c].destructorDecl != 0 && DECL_BODY(g_cls[c].destructorDecl) != 0)
 #define NSTM(c) BODY_NSTMTS(DECL_BODY(g_cls[c].destructorDecl))
 /* the class table is acyclic (bases before derived classes) and g_chain is the chain of obj->cls */
@@ -281,14 +391,14 @@ def A(t):
     return ('', 'assigns', t, [])
 
 
-GH_ALL = 'ev_m_currentClassCtx, ev_m_inStaticContext, ev_m_inConstructor, ev_m_inDestructor, ev_m_hasReturn, g_a_entered, g_b_entered, g_a_started, g_b_started, g_b_started_when_a, g_a_this_ok, g_b_this_ok, g_depth, g_a_depth, g_b_depth, g_this, g_this_valid'
+GH_ALL = 'g_begins, g_ends, ev_m_currentClassCtx, ev_m_inStaticContext, ev_m_inConstructor, ev_m_inDestructor, ev_m_hasReturn, g_a_entered, g_b_entered, g_a_started, g_b_started, g_b_started_when_a, g_a_this_ok, g_b_this_ok, g_depth, g_a_depth, g_b_depth, g_this, g_this_valid'
 INV_CTX = 'ev_m_currentClassCtx == g_ctx0 && ev_m_inStaticContext == g_st0 && ev_m_inConstructor == g_ct0 && ev_m_inDestructor == g_dt0 && g_depth == g_depth0'
 CONTRACTS = {
     'dtor_walk': {
         'contract': [
             R('bl_exc == 0 && OBJ_CLS(obj) >= 1 && OBJ_CLS(obj) < CMAX && TABLE_OK && CHAIN_OK'),
             R('BOUNDED_LIMITS && k1 < k2 && k2 < g_len && ca == g_chain[k1] && cb == g_chain[k2] && g_pos == 0 && g_depth < 1000000'),
-            R('g_a_entered == 0 && g_b_entered == 0 && !g_a_started && !g_b_started && !g_b_started_when_a'),
+            R('g_a_entered == 0 && g_b_entered == 0 && !g_a_started && !g_b_started && !g_b_started_when_a && g_begins == 0 && g_ends == 0'),
             A(GH_ALL + ', g_pos, g_obj, g_hasA, g_hasB, g_nsA, g_nsB, g_ns, g_depth0, g_ctx0, g_st0, g_ct0, g_dt0'),
             # C08: destructors run derived-first, once per class of the chain that declares one
             E('destroyObject.dtor_walk.every_declared_destructor_of_the_chain_runs_once', '(HASDTOR(ca) ? g_a_entered == 1 : g_a_entered == 0) && (HASDTOR(cb) ? g_b_entered == 1 : g_b_entered == 0)', ['C08']),
@@ -327,7 +437,35 @@ CONTRACTS = {
         },
     },
 }
+CONTRACTS['exec_block'] = {
+    'contract': [
+        R('bl_exc == 0 && g_depth < 1000000 && g_begins == 0 && g_ends == 0'),
+        A(GH_ALL + ', g_blk_n'),
+        # C09: a block opens exactly one scope and closes it on EVERY path (also when a nested statement returns), so nothing of it stays on the scope stack
+        E('exec.block.scope_closed_on_every_path', 'g_depth == __CPROVER_old(g_depth) && g_begins == 1 && g_ends == 1', ['C09', 'C17']),
+    ],
+    'loops': {0: {'assigns': 'bl_i0, ev_m_hasReturn, g_a_started, g_b_started, g_b_started_when_a, g_a_this_ok, g_b_this_ok, g_a_depth, g_b_depth', 'ghost_in_bounded': True,
+                  'before': 'g_blk_n = BODY_NSTMTS(block);',
+                  'invariants': [('exec_block.loop.bounds', 'bl_i0 <= g_blk_n')],
+                  'decreases': 'g_blk_n - bl_i0'}},
+}
+CONTRACTS['member_dispatch'] = {
+    'contract': [
+        R('bl_exc == 0 && target.objectValue != 0 && DYN_CLS >= 0 && DYN_CLS < CMAX && TABLE_OK'),
+        A('method, staticCls, receiver'),
+        E('eval.member_call.receiver_is_the_target_object', 'receiver == target.objectValue', ['C08']),
+        # C08: a virtual call runs the most-derived override of the receiver's DYNAMIC class
+        E('eval.member_call.virtual_call_runs_override_of_dynamic_class', '(!viaSuper && FOUND != 0 && g_mth[FOUND].isVirtual && DYN_CLS != 0 && VT(DYN_CLS, g_mth[FOUND].signature) != 0) ==> method == VT(DYN_CLS, g_mth[FOUND].signature)', ['C08']),
+        E('eval.member_call.non_virtual_call_runs_the_statically_found_method', '(!viaSuper && (FOUND == 0 || !g_mth[FOUND].isVirtual)) ==> method == FOUND', ['C08']),
+        # ... while super.m() runs the base version
+        E('eval.member_call.super_call_runs_the_base_version', '(viaSuper && STATIC_CLS != 0 && g_cls[STATIC_CLS].base != 0) ==> (method == METHOD_OF(g_cls[STATIC_CLS].base, member_member) && staticCls == g_cls[STATIC_CLS].base)', ['C08']),
+    ],
+}
 HARNESSES = [
+    dict(name='member_dispatch', fn='member_dispatch', replace=[], flags=[], props=['C08', 'C12'], timeout=300,
+         canaries=[('method != 0 && !a1', 'a method was selected'), ('a1', 'super call')]),
+    dict(name='exec_block', fn='exec_block', replace=[], flags=[], props=['C09', 'C17', 'C12'], timeout=300, unwind=5,
+         canaries=[('ev_m_hasReturn', 'a nested statement returned'), ('!ev_m_hasReturn', 'ran to the end')]),
     dict(name='dtor_walk', fn='dtor_walk', replace=[], flags=[], props=['C08', 'C09', 'C12'], timeout=600, unwind=5,
          canaries=[('g_a_started && g_b_started', 'both observed destructors ran'), ('!g_a_started', 'derived class has no destructor statement')]),
 ]
